@@ -4,6 +4,7 @@ The text that is executed is the current source of /repo: for a function object 
 the same name and first line is located in inspect.getsourcefile(f) and its body is interpreted as is.
 """
 import ast
+import copy
 import builtins
 import inspect
 import numbers
@@ -129,10 +130,83 @@ def mro_lookup(cls, name):
     return None, None
 
 
+class AliasEnv(dict):
+    """local variables of a frame.  While a loop contract runs, `alias` maps the names the contract was written with to the
+    names the code uses now (a renamed local must not break a proof); outside contract callbacks alias is None."""
+    alias = None
+
+    def _k(self, k):
+        a = self.alias
+        if a and k in a and not dict.__contains__(self, k):
+            return a[k]
+        return k
+
+    def __getitem__(self, k):
+        return dict.__getitem__(self, self._k(k))
+
+    def __setitem__(self, k, v):
+        dict.__setitem__(self, self._k(k), v)
+
+    def __delitem__(self, k):
+        dict.__delitem__(self, self._k(k))
+
+    def __contains__(self, k):
+        return dict.__contains__(self, self._k(k))
+
+    def get(self, k, d=None):
+        return dict.get(self, self._k(k), d)
+
+
+class _BoundSpec:
+    """a loop contract bound to one frame: its callbacks run with the frame's alias map switched on; a local the contract
+    needs and cannot find makes the obligation UNDECIDED (contract no longer applies), never a crash"""
+    def __init__(self, spec, fr, amap, where):
+        self.__dict__.update(_spec=spec, _fr=fr, _amap=amap, _where=where)
+
+    def __getattr__(self, name):
+        v = getattr(self._spec, name)
+        if not callable(v) or name.startswith('__'):
+            return v
+
+        def wrapped(*a, **k):
+            env = self._fr.env
+            old = getattr(env, 'alias', None)
+            if isinstance(env, AliasEnv):
+                env.alias = self._amap
+            try:
+                return v(*a, **k)
+            except KeyError as ex:
+                raise Unsupported('loop contract for %s no longer applies: no local variable %s' % (self._where, ex))
+            finally:
+                if isinstance(env, AliasEnv):
+                    env.alias = old
+        return wrapped
+
+
+_SPEC_LOCALS = {}
+
+
+def spec_locals(spec):
+    """names of the local variables a loop contract talks about (declared as `locals`, else read off its source)"""
+    cls = type(spec)
+    if cls not in _SPEC_LOCALS:
+        names = getattr(spec, 'locals', None)
+        if names is None:
+            import inspect
+            import re as _re
+            try:
+                src = inspect.getsource(cls)
+            except (OSError, TypeError):
+                src = ''
+            names = tuple(dict.fromkeys(_re.findall(r"fr\.env(?:\.get)?[\[\(]'(\w+)'", src)))
+        _SPEC_LOCALS[cls] = tuple(n for n in names if n != 'self')
+    return _SPEC_LOCALS[cls]
+
+
 class Frame:
     def __init__(self, name, env, g, fi=None):
         self.name = name
-        self.env = env
+        self.env = env if isinstance(env, AliasEnv) else AliasEnv(env)
         self.g = g
         self.fi = fi
         self.loop_ord = 0
@@ -832,12 +906,53 @@ class Interp:
     # ---------------------------------------------------------------- loops
     def loop_spec(self, fr, ordn, st):
         spec = self.loops.get((fr.name, ordn))
-        if spec is not None:
-            fp = ast.unparse(st.iter) if isinstance(st, ast.For) else ast.unparse(st.test)
-            want = getattr(spec, 'header', None)
-            if want is not None and want != fp:
-                raise Unsupported('loop contract for %s#loop%d no longer applies: header %r != %r' % (fr.name, ordn, fp, want))
-        return spec
+        if spec is None:
+            return None
+        where = '%s#loop%d' % (fr.name, ordn)
+        # ---- locals the contract names but the code does not have (any more): a renamed local is recognised when exactly one
+        # variable used in the loop can stand for it
+        amap = {}
+        wanted = spec_locals(spec)
+        fn_node = fr.fi.node if fr.fi is not None else st
+        assigned = {n.id for n in ast.walk(fn_node) if isinstance(n, ast.Name)} | {a.arg for a in ast.walk(fn_node) if isinstance(a, ast.arg)}
+        missing = [w for w in wanted if w not in assigned]
+        if missing:
+            targets = set()
+            if isinstance(st, ast.For):
+                targets = {n.id for n in ast.walk(st.target) if isinstance(n, ast.Name)}
+            written = []          # names the loop assigns, or changes in place (x.append(..), x[i] = ..), in order of appearance
+            for n in ast.walk(st):
+                nm = None
+                if isinstance(n, ast.Name) and isinstance(n.ctx, (ast.Store, ast.Del)):
+                    nm = n.id
+                elif isinstance(n, ast.Call) and isinstance(n.func, ast.Attribute) and isinstance(n.func.value, ast.Name):
+                    nm = n.func.value.id
+                elif isinstance(n, ast.Subscript) and isinstance(n.ctx, ast.Store) and isinstance(n.value, ast.Name):
+                    nm = n.value.id
+                if nm and nm not in written and nm not in targets and nm not in wanted:
+                    written.append(nm)
+            carried = [n for n in written if dict.__contains__(fr.env, n) and not callable(dict.get(fr.env, n))
+                       and not isinstance(dict.get(fr.env, n), (types.ModuleType, type))]
+            temps = [n for n in written if not dict.__contains__(fr.env, n)]
+            if len(missing) == 1 and len(carried) == 1:
+                amap[missing[0]] = carried[0]
+            elif len(missing) == 1 and not carried and len(temps) == 1:
+                amap[missing[0]] = temps[0]
+            else:
+                raise Unsupported('loop contract for %s no longer applies: locals %s not found (loop state: %s, temporaries: %s)'
+                                  % (where, missing, carried, temps))
+        fp_node = st.iter if isinstance(st, ast.For) else st.test
+        if amap:
+            inv = {v: k for k, v in amap.items()}
+            fp_node = copy.deepcopy(fp_node)
+            for n in ast.walk(fp_node):
+                if isinstance(n, ast.Name) and n.id in inv:
+                    n.id = inv[n.id]
+        fp = ast.unparse(fp_node)
+        want = getattr(spec, 'header', None)
+        if want is not None and want != fp:
+            raise Unsupported('loop contract for %s no longer applies: header %r != %r' % (where, fp, want))
+        return _BoundSpec(spec, fr, amap, where)
 
     def g_While(self, st, fr):
         ordn = fr.loop_ord
